@@ -16,6 +16,10 @@ class SelfTestError(Exception):
 DIGESTS = {"md5": (hashlib.md5, 16), "sha1": (hashlib.sha1, 20)}
 
 
+import functools
+
+
+@functools.lru_cache(maxsize=256)
 def password_to_master(alg, password):
     """RFC 3414 A.2: hash of the first 2^20 octets of the endlessly repeated password."""
     if len(password) == 0:
